@@ -20,6 +20,8 @@ pub struct GenCfg {
     /// thorough tier only: much larger bounds (histories of up to 30 000 operations, SLIT with ~1 000
     /// localities, generic tables of hundreds of KiB, megabyte slices into the accumulator)
     pub deep: bool,
+    /// also write public fields of the RSDP / FACS directly (C14 batches only, see exec::ConstSubj)
+    pub pokes: bool,
 }
 
 pub const TABLES: [K; 13] = [K::Xsdt, K::Mcfg, K::Madt, K::Srat, K::Slit, K::Hmat, K::Pptt, K::Rhct, K::Rimt, K::Viot, K::Cedt, K::Hest, K::Rqsc];
@@ -421,6 +423,20 @@ fn gen_entry(rng: &mut Rng, subject: K, h: &mut HandleCounts, faults: bool, chea
     tail(rng, op)
 }
 
+/// byte string for slice operations: long ones are dense (0xff-heavy or random) so that wide
+/// accumulators are driven towards their carries
+fn dense(rng: &mut Rng, n: usize) -> Vec<u8> {
+    if n >= 200 {
+        match rng.below(3) {
+            0 => vec![0xff; n],
+            1 => (0..n).map(|_| 0x80 | rng.next() as u8).collect(),
+            _ => (0..n).map(|_| rng.next() as u8).collect(),
+        }
+    } else {
+        rng.bytes(n)
+    }
+}
+
 fn refidx(rng: &mut Rng, n: u64) -> u64 {
     // uniform over all handles minted so far, biased to the first and the most recent
     match rng.below(6) {
@@ -650,8 +666,22 @@ pub fn gen_trace(rng: &mut Rng, cfg: &GenCfg, run: u64) -> Op {
             }
         }
         TcpaClient | Bert => r.a.extend_from_slice(&[rng.val(32), rng.val(64)]),
-        Rsdp => r.a.push(rng.val(64)),
-        Spcr | Facs => {}
+        Rsdp => {
+            r.a.push(rng.val(64));
+            if cfg.pokes && class != 0 {
+                for _ in 0..1 + rng.below(3) {
+                    r.s.push(Op::new(RsdpPoke).a(&[rng.below(5), rng.val(32)]).b(&rng.bytes(6)));
+                }
+            }
+        }
+        Facs => {
+            if cfg.pokes && class != 0 {
+                for _ in 0..1 + rng.below(3) {
+                    r.s.push(Op::new(FacsPoke).a(&[rng.below(6), rng.val(64)]));
+                }
+            }
+        }
+        Spcr => {}
         Fadt => {
             let n = n_for_class(rng, class.min(2), false);
             let profile = rng.below(9);
@@ -668,6 +698,16 @@ pub fn gen_trace(rng: &mut Rng, cfg: &GenCfg, run: u64) -> Op {
                     7 => Op::new(if rng.chance(1, 2) { FaFw32 } else { FaFw64 }).a(&[rng.val(64)]),
                     8 => Op::new(FaAcpiEnable),
                     9 => Op::new(FaAcpiDisable),
+                    10 => {
+                        let g = gas_args(rng);
+                        let f = rng.below(crate::exec::FADT_POKE_FIELDS);
+                        // fields 0, 6, 7 are generic address structures (five arguments), the rest scalars
+                        if matches!(f, 0 | 6 | 7) {
+                            Op::new(FaPoke).a(&[f, g[0], g[1], g[2], g[3], g[4]])
+                        } else {
+                            Op::new(FaPoke).a(&[f, rng.val(64)])
+                        }
+                    }
                     _ => Op::new(FaGpe).a(&[rng.val(32), rng.val(32), rng.val(8), rng.val(8), rng.val(8)]),
                 };
                 r.s.push(o);
@@ -742,9 +782,10 @@ pub fn gen_trace(rng: &mut Rng, cfg: &GenCfg, run: u64) -> Op {
                         Op::new(SdAppend64).a(&[rng.val(64)])
                     }
                     4 => {
-                        let n = small_count(rng, 40) as usize;
+                        // rarely a large, dense slice (KiB of high-valued bytes)
+                        let n = if rng.chance(1, 60) { 1_000 + rng.below(7_000) as usize } else { small_count(rng, 40) as usize };
                         cur += n as u64;
-                        Op::new(SdAppendSlice).b(&rng.bytes(n))
+                        Op::new(SdAppendSlice).b(&dense(rng, n))
                     }
                     5 => Op::new(SdUpdateCksum),
                     6 => {
@@ -756,9 +797,9 @@ pub fn gen_trace(rng: &mut Rng, cfg: &GenCfg, run: u64) -> Op {
                         Op::new(SdSinkPush).a(&[rng.next(), abort, k]).b(&data)
                     }
                     7 => {
-                        let n = small_count(rng, 24);
+                        let n = if rng.chance(1, 40) && cur > 300 { 250 + rng.below((cur - 250).min(6_000)) } else { small_count(rng, 24) };
                         let o = off(rng, cur, n);
-                        Op::new(SdWriteBytes).a(&[o]).b(&rng.bytes(n as usize))
+                        Op::new(SdWriteBytes).a(&[o]).b(&dense(rng, n as usize))
                     }
                     x => {
                         let k = [SdWrite8, SdWrite16, SdWrite32, SdWrite64][(x % 4) as usize];
